@@ -907,6 +907,35 @@ def canon_lit(txt: str, pol: bool):
     return ast.unparse(e), pol
 
 
+def truth_under(e, facts):
+    """Three-valued truth of expression e given a set of literals (Facts / list of (text, polarity)): True, False or None."""
+    raw = list(list.__iter__(facts)) + list(getattr(facts, 'resolved', []))
+    lits = {canon_lit(t, p) for t, p in raw}
+
+    def ev(x):
+        if isinstance(x, ast.Constant):
+            return bool(x.value)
+        if isinstance(x, ast.UnaryOp) and isinstance(x.op, ast.Not):
+            r = ev(x.operand)
+            return None if r is None else not r
+        if isinstance(x, ast.BoolOp):
+            rs = [ev(v) for v in x.values]
+            if isinstance(x.op, ast.And):
+                if any(r is False for r in rs):
+                    return False
+                return True if all(r is True for r in rs) else None
+            if any(r is True for r in rs):
+                return True
+            return False if all(r is False for r in rs) else None
+        t, p = canon_lit(ast.unparse(x), True)
+        if (t, p) in lits:
+            return True
+        if (t, not p) in lits:
+            return False
+        return None
+    return ev(e)
+
+
 def canon_atom(txt: str) -> str:
     """Canonical text of an atom (polarity dropped - use canon_lit when it matters)."""
     return canon_lit(txt, True)[0]
